@@ -19,6 +19,16 @@ def main():
         text = fam['prefix'] + fam['unit'] * n + fam['suffix']
         if fam.get('kind') == 'lines':
             text = fam['sep'].join([fam['unit']] * n)
+        elif fam.get('kind') == 'texts':      # explicit list of short texts, n = index
+            text = fam['texts'][n]
+        elif fam.get('kind') == 'repeat':     # n earlier parses in the same process, then the timed one
+            text = fam['unit']
+            print(json.dumps({'n': n, 'len': len(text), 'start': True}), flush=True)    # the earlier parses count: being killed during them is slow too
+            for _ in range(n):
+                try:
+                    pytrs.PLSSDesc(text, config=fam['config'])
+                except Exception:  # noqa
+                    pass
         if len(text) > fam.get('max_len', 300):
             break
         print(json.dumps({'n': n, 'len': len(text), 'start': True}), flush=True)
